@@ -13,7 +13,8 @@ RULE = ('(1) strings (token/category alphabets exhaustive up to L, random, mutat
         'error, tolerant parsing must return; truncation points are further inputs for (3). '
         '(3) whenever tolerant parsing returns (strings satisfying C08\'s side conditions, and the faulted documents of '
         '(2)) the output aligns with the input allowing only inserted "}", "]", \\end{n} (n opened earlier in the output) '
-        'and C08\'s blank removal. Non-trivial = strict fails and tolerant succeeds; distinct by string')
+        'and C08\'s blank removal. Non-trivial = strict fails and tolerant succeeds; distinct by string'
+        '. Also: all strings of <= 3 symbols over A_ENV; the strict / tolerant comparison repeated under skip_envs; lost closers in flat documents thousands of tokens long')
 ASSUMPTIONS = [
     'a "]" followed by a later "]" is not a lost closer (the later one takes over): counted, not judged',
 ]
